@@ -8,9 +8,9 @@ CONSTANTS
   NProcs = {1}
   FilterSerial = TRUE
   FilterMT = TRUE
-  Capped = FALSE
+  Capped = TRUE
   CapIter = 2
-  CapRule = "passes"
+  CapRule = "stall"
 PROPERTY Terminates
 INVARIANT BeyondRankZero
 CHECK_DEADLOCK FALSE
